@@ -41,7 +41,17 @@ fn file_with_cross_references(i: usize, n: usize, edges: u32) -> XsdFile {
 /// `shared`: every file but the start file lives in ONE namespace (several files, one namespace,
 /// imported under different schemaLocations)
 fn file_for_ns(i: usize, n: usize, edges: u32, dup: bool, changed: bool, shared: bool) -> XsdFile {
-    let ns = |k: usize| if shared && k >= 1 { ns(1) } else { ns(k) };
+    file_for_ns_mode(i, n, edges, dup, changed, if shared { 1 } else { 0 })
+}
+
+/// `mode` 0: every file its own namespace; 1: every file but the start file in ONE namespace;
+/// 2: even-numbered files (the start file among them) in one namespace, odd-numbered in another
+fn file_for_ns_mode(i: usize, n: usize, edges: u32, dup: bool, changed: bool, mode: u8) -> XsdFile {
+    let ns = |k: usize| match mode {
+        1 if k >= 1 => ns(1),
+        2 => ns(k % 2),
+        _ => ns(k),
+    };
     let mut imports = vec![];
     for j in 0..n {
         if edges & (1 << (i * n + j)) != 0 {
@@ -142,6 +152,7 @@ enum Variant {
     DupEdges,
     WsdlStart,
     SharedNs,
+    AlternatingNs,
     CrossReferences,
 }
 
@@ -155,6 +166,7 @@ fn variant_name(v: Variant) -> &'static str {
         Variant::DupEdges => "duplicate-import-edges",
         Variant::WsdlStart => "wsdl-start",
         Variant::SharedNs => "files-share-one-namespace",
+        Variant::AlternatingNs => "two-namespaces-alternating-over-the-files",
         Variant::CrossReferences => "cross-file-bases-and-refs",
     }
 }
@@ -171,6 +183,7 @@ fn build_case(n: usize, edges: u32, v: Variant) -> Case {
             Variant::NonSchema if unreachable => "<?xml version=\"1.0\"?><catalog><entry id=\"1\"/></catalog>".to_string(),
             Variant::DupEdges => print_xsd(&file_for(i, n, edges, true, false)),
             Variant::SharedNs => print_xsd(&file_for_ns(i, n, edges, false, false, true)),
+            Variant::AlternatingNs => print_xsd(&file_for_ns_mode(i, n, edges, false, false, 2)),
             Variant::CrossReferences => print_xsd(&file_with_cross_references(i, n, edges)),
             _ => print_xsd(&file_for(i, n, edges, false, false)),
         };
@@ -194,6 +207,7 @@ fn build_case(n: usize, edges: u32, v: Variant) -> Case {
             b_ops: vec![BOp { name: "Op0".into(), action: None, input: BIo::default(), output: None }],
             service: "Svc".into(),
             port: "Port".into(),
+            default_ns_style: false,
             address: "http://127.0.0.1:9/x".into(),
         };
         // file 0 stays as a sibling only if some edge points at it (then it is reachable as a file)
@@ -329,9 +343,9 @@ pub fn check(tier: &str) -> i32 {
         let variants: Vec<Variant> = if n >= 5 {
             vec![Variant::Base, Variant::Malformed]
         } else if n <= 3 || tier == "thorough" {
-            vec![Variant::Base, Variant::Removed, Variant::Changed, Variant::Malformed, Variant::NonSchema, Variant::DupEdges, Variant::WsdlStart, Variant::SharedNs, Variant::CrossReferences]
+            vec![Variant::Base, Variant::Removed, Variant::Changed, Variant::Malformed, Variant::NonSchema, Variant::DupEdges, Variant::WsdlStart, Variant::SharedNs, Variant::AlternatingNs, Variant::CrossReferences]
         } else {
-            vec![Variant::Base, Variant::Malformed, Variant::Removed, Variant::SharedNs, Variant::CrossReferences]
+            vec![Variant::Base, Variant::Malformed, Variant::Removed, Variant::SharedNs, Variant::AlternatingNs, Variant::CrossReferences]
         };
         let mut n_states = 0u64;
         for chunk in graphs.chunks(4096) {
@@ -347,7 +361,7 @@ pub fn check(tier: &str) -> i32 {
                     if v == Variant::DupEdges && e == 0 {
                         continue;
                     }
-                    if v == Variant::SharedNs && n < 3 {
+                    if (v == Variant::SharedNs || v == Variant::AlternatingNs) && n < 3 {
                         continue;
                     }
                     // references across an import CYCLE are finding F-C08-1 (C08's); here: acyclic graphs
@@ -418,7 +432,7 @@ pub fn replay(v: &Violation) -> i32 {
     let n = v.case["n"].as_u64().unwrap_or(1) as usize;
     let edges = v.case["edges"].as_u64().unwrap_or(0) as u32;
     let vname = v.case["variant"].as_str().unwrap_or("as-generated");
-    let variant = [Variant::Base, Variant::Removed, Variant::Changed, Variant::Malformed, Variant::NonSchema, Variant::DupEdges, Variant::WsdlStart, Variant::SharedNs]
+    let variant = [Variant::Base, Variant::Removed, Variant::Changed, Variant::Malformed, Variant::NonSchema, Variant::DupEdges, Variant::WsdlStart, Variant::SharedNs, Variant::AlternatingNs, Variant::CrossReferences]
         .into_iter()
         .find(|x| variant_name(*x) == vname)
         .unwrap_or(Variant::Base);
